@@ -83,7 +83,7 @@ def instantiate(facts, formulas, funcs, seeds=(), rounds=2, limit=40):
     return out
 
 
-def check_sat(formulas, timeout_ms=None, want_model=True):
+def check_sat(formulas, timeout_ms=None, want_model=True, fallback=True):
     """satisfiability of a conjunction"""
     timeout_ms = timeout_ms or QUICK_TIMEOUT_MS
     s = z3.Solver()
@@ -102,6 +102,8 @@ def check_sat(formulas, timeout_ms=None, want_model=True):
     if r == z3.sat:
         return Verdict("sat", "z3-" + z3.get_version_string(), dt, s.model() if want_model else None), s
     v = Verdict("unknown", "z3-" + z3.get_version_string(), dt, reason=s.reason_unknown())
+    if not fallback:
+        return v, s
     # hand the text to the other solvers
     smt2 = s.to_smt2()
     for name, fn in (("cvc5", run_cvc5), ("z3-4.8.12", run_sysz3)):
@@ -142,10 +144,81 @@ def run_sysz3(smt2, timeout_ms):
     return _run([exe, "-T:%d" % max(1, timeout_ms // 1000)], smt2, timeout_ms)
 
 
+_UDIV = z3.Function("nl!div", z3.RealSort(), z3.RealSort(), z3.RealSort())
+_UMUL = z3.Function("nl!mul", z3.RealSort(), z3.RealSort(), z3.RealSort())
+_UMULI = z3.Function("nl!muli", z3.IntSort(), z3.IntSort(), z3.IntSort())
+
+
+def _is_num(t):
+    return z3.is_int_value(t) or z3.is_rational_value(t)
+
+
+def abstract_nl(term, memo):
+    """replace non-linear division / multiplication by uninterpreted functions.  The abstraction
+    only forgets facts about * and /, so `unsat` of the abstracted query implies `unsat` of the
+    original (a `sat` answer of the abstracted query means nothing and is never used)."""
+    i = term.get_id()
+    if i in memo:
+        return memo[i]
+    if not z3.is_app(term) or term.num_args() == 0:
+        memo[i] = term
+        return term
+    if z3.is_quantifier(term):
+        memo[i] = term
+        return term
+    kids = [abstract_nl(c, memo) for c in term.children()]
+    k = term.decl().kind()
+    r = None
+    if k == z3.Z3_OP_DIV and not _is_num(kids[1]):
+        r = _UDIV(kids[0], kids[1])
+    elif k == z3.Z3_OP_MUL:
+        non = [c for c in kids if not _is_num(c)]
+        if len(non) >= 2:
+            num = [c for c in kids if _is_num(c)]
+            acc = non[0]
+            for c in non[1:]:
+                if z3.is_int(acc) and z3.is_int(c):
+                    acc = _UMULI(acc, c)
+                else:
+                    acc = _UMUL(z3.ToReal(acc) if z3.is_int(acc) else acc, z3.ToReal(c) if z3.is_int(c) else c)
+            for c in num:
+                acc = c * acc
+            r = acc
+    if r is None:
+        r = term.decl()(*kids) if any(a is not b for a, b in zip(kids, term.children())) else term
+    memo[i] = r
+    return r
+
+
+def has_nl(term, memo):
+    i = term.get_id()
+    if i in memo:
+        return memo[i]
+    r = False
+    if z3.is_app(term):
+        k = term.decl().kind()
+        ch = term.children()
+        if k == z3.Z3_OP_DIV and not _is_num(ch[1]):
+            r = True
+        elif k == z3.Z3_OP_MUL and len([c for c in ch if not _is_num(c)]) >= 2:
+            r = True
+        else:
+            r = any(has_nl(c, memo) for c in ch)
+    memo[i] = r
+    return r
+
+
 def prove(assumptions, goal, timeout_ms=None):
     """validity of  /\\ assumptions -> goal"""
     if goal is True:
         return Verdict("unsat", "trivial", 0.0), None
     fs = [alg.lift(a) for a in assumptions if a is not True]
     fs.append(z3.Not(alg.lift(goal)))
+    m = {}
+    if any(has_nl(f, m) for f in fs):
+        memo = {}
+        v, s = check_sat([abstract_nl(f, memo) for f in fs], timeout_ms, want_model=False, fallback=False)
+        if v.status == "unsat":
+            v.solver += "(nl-abstracted)"
+            return v, s
     return check_sat(fs, timeout_ms)
